@@ -139,7 +139,7 @@ AuxHashMap<A>* AuxHashMap<A>::deserialize(std::istream& is, uint8_t lgConfigK,
   }
 
   if (auxHashMap->getAuxCount() != auxCount) {
-    make_deleter()(auxHashMap);
+    // aux_ptr releases the map
     throw std::invalid_argument("Deserialized AuxHashMap has wrong number of entries");
   }
 
